@@ -45,7 +45,7 @@ def _required():
 SPEC = {
     "pkg": "c11",
     "tests": [
-        {"name": _T, "race": True, "quick": 160, "thorough": 4800, "shards_quick": 8, "shards_thorough": 16, "timeout": 3000,
+        {"name": _T, "race": True, "quick": 240, "thorough": 4800, "shards_quick": 8, "shards_thorough": 16, "timeout": 3000,
          "shrinktime": "30s", "replay_repeat": 5},
         {"name": "TestWitnessRandIterator", "race": True, "quick": 1, "thorough": 1, "shards": 1, "timeout": 600},
         {"name": "TestWitnessRandString", "race": True, "quick": 1, "thorough": 1, "shards": 1, "timeout": 600},
